@@ -56,7 +56,10 @@ PROPS = {
                     "implementation has become stable; a log-only oracle checks the property on the implementation alone",
             "note": "interleavings of the real code are not enumerated: Lean quantifies over all schedules of the model, the harness "
                     "replays chosen ones; atomicity of the model steps rests on the mutex structure of the three functions (read, not "
-                    "extracted); concurrent bursts are free-running and compared through the observed run order",
+                    "extracted); concurrent bursts are free-running and compared through the observed run order; a second, end-to-end run "
+                    "(hwscb -tier c05, owned by the stop family: real nbhttp engine on loopback, poller/blockparser upgrade paths in "
+                    "lt|et|etos) checks the consequence 'HTTP handler and WebSocket callbacks of one connection never overlap' with "
+                    "the oracle c05-overlap; its model side is C14's WsCb.execOf table (those paths use the same per-conn ExecQ)",
             "technique": "Lean 4 proof (inductive invariant of a transition system) + schedule replay / differential correspondence"},
         "lean": ["NbioVerif.Properties.C05"], "drivers": ["jobqdrv", "wscbdrv"], "harness": ["hjobq", "hwscb"],
         "runs": [JOBQ_RUN, WSUP_RUN],
